@@ -174,3 +174,16 @@ class ThreadingSeam:
 
     def __getattr__(self, name):
         return getattr(threading, name)
+
+
+class SysSeam:
+    """`sys` as seen by threadsupport, should it ask sys._current_frames() itself."""
+
+    def __init__(self, tw):
+        self._tw = tw
+
+    def _current_frames(self):
+        return self._tw.current_frames()
+
+    def __getattr__(self, name):
+        return getattr(sys, name)
